@@ -156,3 +156,18 @@ META["C06"] = {
         "bin counters of distributions are masked in the comparison (the property speaks of counters aside); non_zero_calls of the faulted iteration must exceed the pair's by exactly the number of faulted points whose value is non-zero, finite_calls must be equal",
     ],
 }
+
+META["C11"] = {
+    "level": "exploration",
+    "parts": 3,
+    "tiers": {
+        "quick": {"shards": 3, "deadline_s": 300,
+                  "bounds": "bins_x in {1,2,3,5} x bins_y in {1,2,3} x 7 ranges ([0,1],[-1,1],[-3,-1],[2,5],[0,1e-6],[-1e6,1e6],[0.1,0.7]); every (x,y) pair from: every edge and its two neighbours, every mid point, below/above by one span, far outside (1e10 spans, +-1e19, 1e30, +-max), quotient just above 2^64, +-inf, NaN; one 1-d and one 2-d distribution filled in the same call; PLAIN, VEGAS (grid [0,1/8,1/4,1]) and MULTI-CHANNEL (weights 1/2,1/8,3/8, jacobian 1+y); 9-call differential runs per bin; 3 types"},
+        "thorough": {"shards": 3, "deadline_s": 900, "bounds": "same as quick (the enumeration is complete at this bound)"},
+    },
+    "rule": "nested enumeration of binnings x coordinate pairs, one scripted projection per single-call iteration; reference bin = floor((x-min)/size) in __float128 on the stored parameters; non-trivial = every case; distinct = distinct (configuration, x, y)",
+    "assumptions": [
+        "a coordinate whose exact quotient is within 2 eps max(q,1) of an integer may be in either adjacent bin (or outside, at the range ends)",
+        "bin contents within 8 eps of value*weight/area, the weight being what point.weight() returned to the integrand",
+    ],
+}
